@@ -203,6 +203,14 @@ CLAIMS.update({
         "note": "Generated code for user structs/enums depends on the input signature and is not decided.",
     },
 })
+CLAIMS["C26"]["text"] += " Every prelude array operation taking a position uses it as an exact subscript (or passes it to an operation that does) on every path to a normal return, so an out-of-range position reaches the VM's bounds check instead of being clamped away (INDEX-MUST-USE)."
+CLAIMS["C21"]["text"] = CLAIMS["C21"]["text"].replace("over the same membership test (IMPORT-KINDS)", "over the same membership test, and the predicate filters every kind of child the import copies - declarations and child namespaces alike (IMPORT-KINDS)")
+CLAIMS["C12"]["text"] += " Named sub-patterns are deconstructed in declaration order by the pass (FIELD-ORDER)."
+CLAIMS["C09"] = {
+    "text": "Decides: the channel queue is FIFO and reads remove (CH-QUEUE); a value in transit is an owned message tree - no container shared between threads may hold thread-local Values anywhere in the closure of its element type (CH-OWN) - built at write time and materialised in the reader's heap at read time (CH-QUEUE); the blocking path re-pushes the channel, rewinds pc and has no other effect (RESUME); a collector arm that walks a collection of children walks all of it (GC-CHILDREN).",
+    "note": "Interleaving-level behaviour is not decided. The dangling-pointer defect found here was repaired by 41075a1.",
+}
+CLAIMS["C08"]["note"] = "Invisibility of later mutation follows from copy + heap separation; heap separation for channels is CH-OWN under C09."
 NOT_APPLICABLE["C33"] = "unit inference (char index vs byte offset vs token index) over lexer/parser/diagnostics needs the type-resolved MIR engine with per-field def-use; that engine was not completed in the time available, and no sound syntactic proxy was found (a name-based one would alarm on behaviour-preserving edits)"
 
 for _p in []:
